@@ -149,6 +149,31 @@ def check_lookups(chk, lcases, profiles):
     chk.sample({'kind': 'lookup-case', 'case': lcases[len(lcases) // 2]})
 
 
+def check_cache_semantics(chk):
+    """cache=False: every pass rebuilds the lookup and reflects the CURRENT contents of both sources; cache=True: the
+    second pass is served from the cached lookup (the build side as it was), the streamed side is read again."""
+    import petl as etl
+    for name, stream in (('hashjoin', 'left'), ('hashleftjoin', 'left'), ('hashrightjoin', 'right')):
+        for cache in (False, True):
+            left = [['k', 'a'], [1, 'l1'], [2, 'l2']]
+            right = [['k', 'b'], [1, 'r1'], [2, 'r2']]
+            v = getattr(etl, name)(left, right, key='k', cache=cache)
+            p1 = [tuple(r) for r in v]
+            built = right if stream == 'left' else left
+            built[1] = [1, 'EDITED']
+            built.append([2, 'NEW'])
+            p2 = [tuple(r) for r in v]
+            fresh = [tuple(r) for r in getattr(etl, name)(left, right, key='k', cache=cache)]
+            chk.count(('cache-semantics', name, cache))
+            chk.replayed += 1
+            if not cache and p2 != fresh:
+                chk.violation({'op': name, 'kind': 'cache-semantics'},
+                              '%s(cache=False): after editing the build side the second pass delivers %r, a fresh view %r' % (name, p2, fresh),
+                              {'kind': 'cache-semantics', 'name': name})
+            if cache and p2 != p1:
+                chk.add_drift('%s(cache=True): second pass after editing the build side %r, first pass %r' % (name, p2, p1))
+
+
 def run(tier, seed):
     chk = Check(PID, tier, seed)
     full = tier == 'thorough'
@@ -157,12 +182,13 @@ def run(tier, seed):
     tlc.check_coverage(r, ACTIONS, 'HashJoin')
     chk.add_tlc(r, 'HashJoin', cfg, ACTIONS)
     cases, _x, lcases = common.gen('JoinGen', 'JoinGen', outs=('OUT', 'OUT2', 'OUT3'))
-    profiles = ['ints', 'mixed', 'text', 'compound', 'equalreps'] if full else ['ints', 'mixed', 'equalreps']
+    profiles = ['ints', 'mixed', 'text', 'compound', 'equalreps'] if full else ['ints', 'mixed', 'equalreps', 'compound']
     if not full:
         rng = random.Random(seed)
         cases = [c for c in cases if not c06._ragged(c) or rng.random() < 0.34]
     check_cases(chk, cases, profiles, full)
     check_lookups(chk, lcases, profiles)
+    check_cache_semantics(chk)
     traces, concrete = c06.record_traces(2500 if full else 300, seed, fns=joinlib.HASH_FN)
     c06.validate_traces(chk, traces, concrete, seed, label='hash join')
     chk.exhaustive = full
